@@ -1772,3 +1772,259 @@ Proof.
   - rewrite (invoke_sets p s0 n WFn Hst0 Hnf), E0. reflexivity.
   - rewrite (invoke_sets p s0 n WFn Hst0 Hnf), E0. rewrite (map_ext _ _ Hv). reflexivity.
 Qed.
+
+(** ** the hypotheses do not look at [pending] / [setDuring] *)
+Lemma reads_pend s t n : pend_eq s t -> binds t = binds s -> reads t n = reads s n.
+Proof.
+  intros PE Hb. apply reads_shape; [|exact Hb]. intros m. right. apply (pend_shape s t PE m).
+Qed.
+
+Lemma ok_state_pend s t B h : pend_eq s t -> rest_eq s t -> ok_state s B h -> ok_state t B h.
+Proof.
+  intros PE RE [Bo G]. destruct RE as (Rb&_&_&_&Rh&_&_&Rst&_&_&_&_&_&_&Rhas).
+  assert (Hshape : same_shape s t) by apply pend_shape, PE.
+  assert (Hheight : forall m, height (nd t m) = height (nd s m)) by (intros m; apply (pend_proj height); auto).
+  split.
+  - destruct Bo as [B1 B2 B3 B4 B5 B6]. constructor; auto.
+    + intros x Hx. apply Rhas, B3, Hx.
+    + intros x Hx. rewrite Hheight. auto.
+    + intros x Hx. rewrite (pend_proj nkind s t x PE) by auto. auto.
+    + intros x Hx a m Ha Hv. rewrite Hheight. rewrite (reads_pend s t x PE Rb) in Ha.
+      rewrite (vsrc_shape s t a Hshape) in Hv. eapply B6; eauto.
+  - destruct G as [G1 G2 G3 G4]. constructor.
+    + rewrite Rh. exact G1.
+    + intros n c. rewrite (pend_proj children s t n PE), (pend_proj parents s t c PE) by auto. apply G2.
+    + intros c q. rewrite (pend_proj parents s t c PE), !Hheight by auto. apply G3.
+    + intros x. rewrite (pend_proj changedAt s t x PE), Rst by auto. apply G4.
+Qed.
+
+Section pend_inv.
+  Context (s t : state) (PE : pend_eq s t) (Hb : binds t = binds s) (Hst : stabNum t = stabNum s).
+
+  Lemma cutv_pend n : cutv t n = cutv s n.
+  Proof.
+    unfold cutv. rewrite (pend_proj nkind s t n PE), (pend_proj value s t n PE), (pend_proj decl s t n PE) by auto.
+    destruct (nkind (nd s n)); try reflexivity. rewrite (pend_valueOf s t _ PE). reflexivity.
+  Qed.
+
+  Lemma newval_pend n : newval t n = newval s n.
+  Proof.
+    unfold newval. rewrite (pend_proj nkind s t n PE), (pend_proj decl s t n PE) by auto.
+    destruct (nkind (nd s n)); try reflexivity; rewrite ?(pend_valueOf s t _ PE); try reflexivity.
+    - rewrite (map_ext _ _ (fun a => pend_valueOf s t a PE)). reflexivity.
+    - rewrite (bd_ext t s _ Hb). destruct (b_rhs (bd s b)); rewrite ?(pend_valueOf s t _ PE); reflexivity.
+  Qed.
+
+  Lemma localEvs_pend n : localEvs t n = localEvs s n.
+  Proof.
+    unfold localEvs. rewrite (pend_proj nkind s t n PE), (pend_proj decl s t n PE), (pend_proj value s t n PE) by auto.
+    destruct (nkind (nd s n)); try reflexivity; rewrite ?(pend_valueOf s t _ PE); try reflexivity.
+    rewrite (map_ext _ _ (fun a => pend_valueOf s t a PE)). reflexivity.
+  Qed.
+
+  Lemma localF_pend n y : localF t n y = localF s n y.
+  Proof. unfold localF. rewrite cutv_pend, newval_pend, Hst. reflexivity. Qed.
+
+  Lemma hkeys_pend n : hkeys t n = hkeys s n.
+  Proof. unfold hkeys. rewrite cutv_pend, (pend_proj observers s t n PE) by auto. reflexivity. Qed.
+
+  Lemma wantPush_pend c : wantPush t c = wantPush s c.
+  Proof.
+    unfold wantPush, isStale, staleWrtParents, isNecessary.
+    rewrite (pend_proj forceNec s t c PE), (pend_proj children s t c PE), (pend_proj observers s t c PE),
+      (pend_proj valid s t c PE), (pend_proj nkind s t c PE), (pend_proj recomputedAt s t c PE),
+      (pend_proj parents s t c PE), Hst by auto.
+    assert (existsb (fun q => changedAt (nd t q) >? recomputedAt (nd s c)) (parents (nd s c)) =
+            existsb (fun q => changedAt (nd s q) >? recomputedAt (nd s c)) (parents (nd s c))) as ->; [|reflexivity].
+    induction (parents (nd s c)) as [|q l IH]; [reflexivity|]. cbn [existsb].
+    rewrite IH, (pend_proj changedAt s t q PE) by auto. reflexivity.
+  Qed.
+End pend_inv.
+
+Lemma localF_pending s n y q : localF s n (y <| pending := q |>) = localF s n y <| pending := q |>.
+Proof. unfold localF. destruct (cutv s n); [|destruct (newval s n)]; reflexivity. Qed.
+
+Lemma pend_eq_afterLocal s t n : pend_eq s t -> binds t = binds s -> stabNum t = stabNum s ->
+  (has t n <-> has s n) -> pend_eq (afterLocal s n) (afterLocal t n).
+Proof.
+  intros PE Hb Hst Hhas m. rewrite !nd_afterLocal. destruct (decide (m = n)) as [->|]; [|apply PE].
+  destruct (PE n) as [q Eq]. unfold nd in Eq. unfold has in Hhas.
+  destruct (nodes s !! n) as [x|] eqn:Es, (nodes t !! n) as [x'|] eqn:Et; cbn in Eq.
+  - exists q. rewrite Eq, (localF_pend s t PE Hb Hst), localF_pending. reflexivity.
+  - exfalso. destruct Hhas as [_ H]. destruct H as [? H]; [eauto|discriminate].
+  - exfalso. destruct Hhas as [H _]. destruct H as [? H]; [eauto|discriminate].
+  - exists None. reflexivity.
+Qed.
+
+Lemma pushlist_pend s t n : pend_eq s t -> binds t = binds s -> stabNum t = stabNum s ->
+  (has t n <-> has s n) -> pushlist t n = pushlist s n.
+Proof.
+  intros PE Hb Hst Hhas. unfold pushlist. rewrite (cutv_pend s t PE). destruct (cutv s n); [reflexivity|].
+  rewrite (pend_proj children s t n PE) by auto. apply list_filter_iff. intros c.
+  rewrite (wantPush_pend (afterLocal s n) (afterLocal t n)); [reflexivity| |exact Hst].
+  apply pend_eq_afterLocal; assumption.
+Qed.
+
+(** ** the sets commute with the effect of a recompute *)
+Definition applyEff (F : node -> node) (n : nid) (evs : list event) (w : Heap.t) (H : list nid) (u : state) : state :=
+  u <| nodes := alter F n (nodes u) |> <| log := evs ++ log u |> <| heap := w |> <| handlers := H |>.
+
+Lemma targets_cons a l : targets (a :: l) = match target a with Some v => v :: targets l | None => targets l end.
+Proof. reflexivity. Qed.
+
+Section eff.
+  Context (F : node -> node) (n : nid) (evs : list event) (w : Heap.t) (H : list nid).
+  Context (F1 : forall y, nkind (F y) = nkind y) (F3 : forall y, pending (F y) = pending y)
+          (F4 : forall y q, F (y <| pending := q |>) = F y <| pending := q |>).
+  Notation G := (applyEff F n evs w H).
+
+  Lemma nd_G_proj {A} (g : node -> A) u m : (forall y, g (F y) = g y) -> g (nd (G u) m) = g (nd u m).
+  Proof.
+    intros Hg. unfold nd, applyEff; cbn. rewrite nd_alter. destruct (decide (m = n)) as [->|]; [|reflexivity].
+    destruct (nodes u !! n); cbn; [apply Hg|reflexivity].
+  Qed.
+
+  Lemma nd_G_ne u m : m <> n -> nd (G u) m = nd u m.
+  Proof. intros Hne. unfold nd, applyEff; cbn. rewrite nd_alter, decide_False by exact Hne. reflexivity. Qed.
+
+  Definition val_ok (v : nid) : Prop := v <> n \/ forall y, value (F y) = value y.
+
+  Lemma value_G u v : val_ok v -> value (nd (G u) v) = value (nd u v).
+  Proof. intros [Hne|Hv]; [rewrite nd_G_ne by exact Hne; reflexivity|apply nd_G_proj, Hv]. Qed.
+
+  Lemma varSetD_G u v x : val_ok v -> varSetD (G u) v x = G (varSetD u v x).
+  Proof.
+    intros Hv. unfold varSetD. rewrite (nd_G_proj nkind u v F1), (nd_G_proj pending u v F3), (value_G u v Hv).
+    destruct (_ && _ && _); [reflexivity|].
+    apply state_ext; try reflexivity. cbn. apply alter_alter_comm. intros y. symmetry. apply F4.
+  Qed.
+
+  Lemma setAct_G u a : (forall v, target a = Some v -> val_ok v) -> setAct (G u) a = G (setAct u a).
+  Proof.
+    intros Hv. destruct a as [k|v x|v d]; cbn [setAct]; [reflexivity|apply varSetD_G, Hv; reflexivity|].
+    assert (Hvv : val_ok v) by (apply Hv; reflexivity).
+    rewrite (nd_G_proj pending u v F3), (value_G u v Hvv). apply varSetD_G, Hvv.
+  Qed.
+
+  Lemma setsT_G acts : forall u, (forall v, v ∈ targets acts -> val_ok v) -> setsT acts (G u) = G (setsT acts u).
+  Proof.
+    induction acts as [|a acts IH]; intros u Hv; [reflexivity|]. cbn [setsT foldl].
+    fold (setsT acts (setAct (G u) a)). fold (setsT acts (setAct u a)).
+    rewrite setAct_G.
+    - apply IH. intros v Hin. apply Hv. rewrite targets_cons. destruct (target a); [right|]; exact Hin.
+    - intros v Ev. apply Hv. rewrite targets_cons, Ev. left.
+  Qed.
+End eff.
+
+Lemma localF_value_var s n y : isVarKind (nkind (nd s n)) = true -> value (localF s n y) = value y.
+Proof.
+  intros Hk. unfold localF, cutv, newval. destruct (nkind (nd s n)); try discriminate. reflexivity.
+Qed.
+
+Lemma rnp_spec_applyEff s n s1 e : rnp_spec s n = Ok (s1, e) ->
+  exists w, addAll (fun c => height (nd s c)) (pushlist s n) (heap s) = Ok w /\
+            s1 = applyEff (localF s n) n (localEvs s n) w (newHandlers s n) s /\ e = None.
+Proof. intros H. apply rnp_spec_inv in H as (-> & w & Hw & ->). exists w. auto. Qed.
+
+(** D: a recompute followed by sets = the sets followed by the recompute *)
+Lemma rnp_spec_setsT s n s1 e acts :
+  (forall v, v ∈ targets acts -> isVarKind (nkind (nd s v)) = true) ->
+  rnp_spec s n = Ok (s1, e) -> rnp_spec (setsT acts s) n = Ok (setsT acts s1, e).
+Proof.
+  intros Hvars H. destruct (rnp_spec_applyEff _ _ _ _ H) as (w & Hw & -> & ->).
+  set (t := setsT acts s).
+  pose proof (pend_eq_setsT acts s) as PE. pose proof (rest_eq_setsT acts s) as RE. fold t in PE, RE.
+  destruct RE as (Rb&Rnx&Rr&Ro&Rh&Ra&Ri&Rst&Rstat&Rnn&Rsr&Rhd&Rmx&Rlog&Rhas).
+  rewrite (setsT_G (localF s n) n (localEvs s n) w (newHandlers s n)).
+  - unfold rnp_spec. rewrite (pushlist_pend s t n PE Rb Rst (Rhas n)), Rh.
+    rewrite (addAll_ext _ (fun c => height (nd s c))) by (intros c _; apply (pend_proj height); auto).
+    rewrite Hw. cbn [rbind]. apply (f_equal (fun x : state => Ok (x, @None err))).
+    apply state_ext; try reflexivity; cbn.
+    + apply alter_ext. intros y _. apply (localF_pend s t PE Rb Rst).
+    + unfold newHandlers. rewrite Rhd, (hkeys_pend s t PE). reflexivity.
+    + rewrite (localEvs_pend s t PE). reflexivity.
+  - intros y. apply localF_frame.
+  - intros y. apply localF_frame.
+  - intros y q. apply localF_pending.
+  - intros v Hv. destruct (decide (v = n)) as [->|Hne]; [right|left; exact Hne].
+    intros y. apply localF_value_var, Hvars, Hv.
+Qed.
+
+(** ** sets on different vars commute *)
+Lemma varSetD_nd_other s u y v : v <> u -> nd (varSetD s u y) v = nd s v.
+Proof.
+  intros Hne. unfold varSetD. destruct (_ && _ && _); [reflexivity|].
+  change (nd (_ <| setDuring := _ |>) v) with (nd (upd s u (set pending (fun _ => Some y))) v).
+  apply nd_upd_ne, Hne.
+Qed.
+
+Lemma varSetD_comm s u y v x : u <> v ->
+  varSetD (varSetD s u y) v x = varSetD (varSetD s v x) u y.
+Proof.
+  intros Hne. unfold varSetD at 1 3.
+  rewrite (varSetD_nd_other s u y v) by congruence. rewrite (varSetD_nd_other s v x u) by congruence.
+  set (cu := (match nkind (nd s u) with KVar e => e | _ => false end) && _ && _).
+  set (cv := (match nkind (nd s v) with KVar e => e | _ => false end) && _ && _).
+  unfold varSetD. fold cu cv. destruct cu, cv; try reflexivity.
+  apply state_ext; try reflexivity; cbn.
+  - apply alter_commute. congruence.
+  - apply insert_sorted_comm.
+Qed.
+
+Definition tgt_ne (a b : action) : Prop := forall u v, target a = Some u -> target b = Some v -> u <> v.
+
+Lemma setAct_comm s a b : tgt_ne a b -> setAct (setAct s a) b = setAct (setAct s b) a.
+Proof.
+  intros Hne. destruct a as [ka|u y|u d], b as [kb|v x|v e]; cbn [setAct]; try reflexivity.
+  all: assert (Huv : u <> v) by (apply Hne; reflexivity).
+  all: rewrite ?(varSetD_nd_other s u _ v) by congruence; rewrite ?(varSetD_nd_other s v _ u) by congruence.
+  all: apply varSetD_comm, Huv.
+Qed.
+
+Lemma setsT_cons a acts s : setsT (a :: acts) s = setsT acts (setAct s a).
+Proof. reflexivity. Qed.
+
+Lemma setsT_setAct_comm acts : forall s b, (forall a, a ∈ acts -> tgt_ne a b) ->
+  setAct (setsT acts s) b = setsT acts (setAct s b).
+Proof.
+  induction acts as [|a acts IH]; intros s b Hne; [reflexivity|]. rewrite !setsT_cons.
+  rewrite IH by (intros; apply Hne; right; assumption).
+  rewrite (setAct_comm s a b) by (apply Hne; left). reflexivity.
+Qed.
+
+Lemma setsT_comm l1 : forall l2 s, (forall a b, a ∈ l1 -> b ∈ l2 -> tgt_ne a b) ->
+  setsT l2 (setsT l1 s) = setsT l1 (setsT l2 s).
+Proof.
+  intros l2. induction l2 as [|b l2 IH]; intros s Hne; [reflexivity|]. rewrite !setsT_cons.
+  rewrite setsT_setAct_comm by (intros a Ha; apply Hne; [exact Ha|left]).
+  apply IH. intros a b' Ha Hb. apply Hne; [exact Ha|right; exact Hb].
+Qed.
+
+Lemma tgt_ne_of_targets l1 l2 : (forall v, v ∈ targets l1 -> v ∈ targets l2 -> False) ->
+  forall a b, a ∈ l1 -> b ∈ l2 -> tgt_ne a b.
+Proof.
+  intros H a b Ha Hb u v Eu Ev ->. apply (H v).
+  - unfold targets. apply elem_of_list_omap. eauto.
+  - unfold targets. apply elem_of_list_omap. eauto.
+Qed.
+
+(** all the sets of a block, with the actions of every node fixed *)
+Definition setsAllA (A : nid -> list action) (l : list nid) (s : state) : state :=
+  foldl (fun s n => setsT (A n) s) s l.
+
+Lemma setsAllA_perm A l l' : l ≡ₚ l' -> NoDup l ->
+  (forall n m v, n ∈ l -> m ∈ l -> n <> m -> v ∈ targets (A n) -> v ∈ targets (A m) -> False) ->
+  forall s, setsAllA A l s = setsAllA A l' s.
+Proof.
+  induction 1 as [|x l l' Hp IH|x y l|l l' l'' Hp1 IH1 Hp2 IH2]; intros Hnd Hdis s.
+  - reflexivity.
+  - cbn [setsAllA foldl]. apply IH.
+    + apply NoDup_cons_1_2 in Hnd. exact Hnd.
+    + intros n m v Hn Hm. apply Hdis; right; assumption.
+  - cbn [setsAllA foldl]. f_equal. apply setsT_comm. apply tgt_ne_of_targets.
+    intros v Hy Hx. apply (Hdis y x v); [left|right; left| |exact Hy|exact Hx].
+    apply NoDup_cons_1_1 in Hnd. intros ->. apply Hnd. left.
+  - rewrite IH1 by assumption. apply IH2.
+    + rewrite <- Hp1. exact Hnd.
+    + intros n m v Hn Hm. apply Hdis; rewrite Hp1; assumption.
+Qed.
